@@ -163,6 +163,10 @@ func registerIntrinsics(e *Engine) {
 	I[nd+"Depth"] = func(e *Engine, st *State, th *Thread, args []Value, call *ssa.CallCommon) (Value, bool) {
 		return e.i64(uint64(len(th.Frames))), true
 	}
+	I[nd+"LazyTimers"] = func(e *Engine, st *State, th *Thread, args []Value, call *ssa.CallCommon) (Value, bool) {
+		st.LazyTimers = args[0].(*smt.Term).IsTrue()
+		return nil, true
+	}
 	I[nd+"WatchAll"] = func(e *Engine, st *State, th *Thread, args []Value, call *ssa.CallCommon) (Value, bool) {
 		st.WatchAll = args[0].(*smt.Term).IsTrue()
 		return nil, true
